@@ -1,11 +1,13 @@
 package sx
 
 import (
+	"fmt"
 	"go/ast"
 	"go/token"
 	"go/types"
 	"os"
 	"path/filepath"
+	"strconv"
 	"strings"
 
 	"golang.org/x/tools/go/packages"
@@ -60,11 +62,48 @@ func init() {
 	// handles): a fresh canonical object per call. Interning of run-time values
 	// is not modelled.
 	register("unique.Make", func(m *Machine, fr *frame, fn *ssa.Function, args []Value) Value {
-		if m.inPath {
-			m.unsupported("unique.Make outside package initialisation")
+		// canonical object per (type, concrete value); values with symbolic parts are not interned
+		var key func(v Value) (string, bool)
+		key = func(v Value) (string, bool) {
+			switch x := v.(type) {
+			case T:
+				if !x.IsConst() {
+					return "", false
+				}
+				return fmt.Sprintf("%d:%d", x.W, x.Val), true
+			case Str:
+				c, ok := m.concreteStr(x)
+				return "s" + strconv.Quote(c), ok
+			case Struct:
+				out := "{"
+				for _, f := range x {
+					k, ok := key(f)
+					if !ok {
+						return "", false
+					}
+					out += k + ","
+				}
+				return out + "}", true
+			}
+			return "", false
+		}
+		k, ok := key(args[0])
+		if !ok {
+			m.unsupported("unique.Make of a value with symbolic or unsupported parts")
+		}
+		k = fn.String() + "|" + k
+		if p, ok := m.uniqueTab[k]; ok {
+			return Struct{p}
 		}
 		p := new(Value)
 		*p = args[0]
+		if m.uniqueTab == nil {
+			m.uniqueTab = map[string]Ptr{}
+		}
+		m.uniqueTab[k] = p
+		if m.inPath {
+			m.onUndo(func() { delete(m.uniqueTab, k) })
+		}
 		return Struct{p}
 	})
 	register("sort.Slice", sortImpl("sort.Slice"))
